@@ -161,7 +161,7 @@ def generate(rng, tier):
     # mutating entry points after close
     ents = [c for c in K.entry_cases(rng, "quick") if c["target"] is not None and "variant" not in c]
     if tier == "quick":
-        ents = [c for i, c in enumerate(ents) if c["ekind"] == "method" or i % 2 == 0]
+        ents = [c for i, c in enumerate(ents) if c["ekind"] == "method" or i % 3 == 0]
     for c in ents:
         cases.append(dict(c, kind="closed_entry"))
     return cases
